@@ -567,7 +567,7 @@ class BaseShell:
         """
         _cache = should_use_cache(self.execer, "single")
         if _cache:
-            codefname = code_cache_name(src)
+            codefname = code_cache_name(src, "single")
             cachefname = get_cache_filename(codefname, code=True)
             usecache, code = code_cache_check(cachefname)
             if usecache:
